@@ -44,11 +44,11 @@ var errReplica = errors.New("replica refused")
 
 // writeAccepted drives a real DoBatch over the real ring for one key with
 // acknowledgements exactly from the instances in ack.
-func writeAccepted(r *ring.Ring, key uint32, ack map[string]bool) (bool, []string) {
+func writeAccepted(r *ring.Ring, key uint32, ack map[string]bool, wop ring.Operation) (bool, []string) {
 	var mu sync.Mutex
 	var called []string
 	done := make(chan struct{})
-	err := ring.DoBatchWithOptions(context.Background(), ring.Write, r, []uint32{key}, func(d ring.InstanceDesc, _ []int) error {
+	err := ring.DoBatchWithOptions(context.Background(), wop, r, []uint32{key}, func(d ring.InstanceDesc, _ []int) error {
 		mu.Lock()
 		called = append(called, d.Id)
 		mu.Unlock()
@@ -253,13 +253,25 @@ func TestC02(t *testing.T) {
 			}
 			csig := vt.Hash64(fmt.Sprint(cs))
 			for _, key := range keys {
-				W, errW := r.Get(key, ring.Write, nil, nil, nil)
+				// a third of the writes use the built-in operation that does not extend the replica set
+				wop := ring.Write
+				if (uint64(key)+uint64(c.Idx))%3 == 0 {
+					wop = ring.WriteNoExtend
+				}
+				W, errW := r.Get(key, wop, nil, nil, nil)
 				if errW != nil {
 					run.Count("write_set_failed", 1)
 					continue
 				}
 				k := len(W.Instances) - W.MaxErrors
-				for _, sub := range subsets(len(W.Instances), k) {
+				// the minimal sets the tolerance permits, and the sets one acknowledgement smaller: whatever the
+				// real DoBatch accepts as a successful write has to intersect every successful read
+				subs := subsets(len(W.Instances), k)
+				nMinimal := len(subs)
+				if k > 1 {
+					subs = append(subs, subsets(len(W.Instances), k-1)...)
+				}
+				for si, sub := range subs {
 					A := map[string]bool{}
 					var al []string
 					for _, i := range sub {
@@ -267,8 +279,11 @@ func TestC02(t *testing.T) {
 						al = append(al, W.Instances[i].Id)
 					}
 					sort.Strings(al)
-					ok, called := writeAccepted(r, key, A)
+					ok, called := writeAccepted(r, key, A, wop)
 					synctest.Wait()
+					if !ok && si >= nMinimal {
+						continue // fewer acknowledgements than the tolerance permits: rejected, as it should be
+					}
 					if !ok {
 						run.Violation(c, "write-minimal-set-rejected", "DoBatch rejected a set of acknowledgements the write set's tolerance permits", map[string]any{"case": cs, "key": key, "write_set": rk.IDs(W), "max_errors": W.MaxErrors, "acks": al, "called": called})
 						continue
